@@ -272,6 +272,10 @@ class _Cont(Exception):
     pass
 
 
+class Panic(Exception):
+    """raised (only when PEval.panics is set) where the evaluated code would panic: unwrap/expect of None/Err, panic!, unreachable!"""
+
+
 class OutOfFuel(Exception):
     pass
 
@@ -287,6 +291,7 @@ class PEval:
         self.max_depth, self.fuel = max_depth, fuel
         self._impl_cache = {}
         self._accessor_copies = False
+        self.panics = False      # set by rules that decide panic-freedom: a definite panic raises Panic instead of yielding UNKNOWN
         self.unknown_reasons = []
 
     # -------------------------------------------------------------------------------------------------
@@ -646,6 +651,14 @@ class PEval:
             return tuple(self.ev(x, env, depth) for x in e["es"]) if e["es"] else UNIT
         if k == "Array":
             return [self.ev(x, env, depth) for x in e["es"]]
+        if k == "Repeat":
+            # `[x; N]`: N is in the type (`[T; N]`)
+            m_ = re.search(r"; (\d+)\]$", self.lib.ty_str(e["t"])) if "t" in e else None
+            if m_ and int(m_.group(1)) <= 4096:
+                v_ = self.ev(e["e"], env, depth)
+                return [v_] * int(m_.group(1)) if isinstance(v_, (int, float, str, bool)) else self.unknown("array repeat of an object")
+            # the length is not in the facts: an opaque buffer (only its use as scratch space, e.g. for encode_utf8, is supported)
+            return Struct("#Array", {"fill": self.ev(e["e"], env, depth)})
         if k == "Adt":
             fields = {f["f"]: self.ev(f["e"], env, depth) for f in e["fields"]}
             if str(e["adt"]).endswith("borrow::Cow") and "0" in fields:
@@ -834,13 +847,27 @@ class PEval:
                     if l == 0 or math.isnan(l):
                         return math.nan
                     return math.copysign(math.inf, l) * math.copysign(1.0, r)
-            if isinstance(l, int) and isinstance(r, int):
+            if isinstance(l, int) and isinstance(r, int) and not isinstance(l, bool) and not isinstance(r, bool):
                 if op == "Add":
                     return l + r
                 if op == "Sub":
                     return l - r
                 if op == "Mul":
                     return l * r
+                if op == "BitAnd":
+                    return l & r
+                if op == "BitOr":
+                    return l | r
+                if op == "BitXor":
+                    return l ^ r
+                if op == "Shl" and 0 <= r < 128:
+                    return l << r
+                if op == "Shr" and 0 <= r < 128:
+                    return l >> r
+                if op == "Div" and r != 0:
+                    return abs(l) // abs(r) * (1 if (l >= 0) == (r >= 0) else -1)
+                if op == "Rem" and r != 0:
+                    return l - r * (abs(l) // abs(r) * (1 if (l >= 0) == (r >= 0) else -1))
             if isinstance(l, bool) and isinstance(r, bool):
                 if op == "BitAnd":
                     return l and r
@@ -924,6 +951,8 @@ class PEval:
                 for v_ in adt_.get("variants", []):
                     if v_["name"] == fname and len(v_["fields"]) == len(args) and all(f["name"].isdigit() for f in v_["fields"]):
                         return Enum(owner, fname, {str(i_): deref(a) if not isinstance(deref(a), (str, int, bool)) else deref(a) for i_, a in enumerate(args)})
+        if self.panics and (path.startswith("core::panicking::") or path.startswith("std::rt::begin_panic") or path.startswith("std::panicking::")):
+            raise Panic(fname)
         if path.startswith("log::") or path.startswith("<log::"):
             # `log::trace!(..)` and friends: logging is switched off in the model (`lvl <= STATIC_MAX_LEVEL` is false)
             return False if fname in ("le", "lt", "ge", "gt", "eq", "enabled", "log_enabled") else (Struct("#log", {}) if fname == "max_level" else UNIT)
@@ -954,6 +983,10 @@ class PEval:
             ty_from = self.lib.ty_str(self.lib.strip_refs(node["args"][0]["t"]))
             if ty_to == ty_from:
                 return deref(args[0])
+            if isinstance(deref(args[0]), bool) and re.fullmatch(r"[iu](8|16|32|64|128|size)", ty_to or ""):
+                return int(deref(args[0]))      # `true.into()` is 1
+            if isinstance(deref(args[0]), int) and not isinstance(deref(args[0]), bool) and ty_to in ("f64", "f32"):
+                return float(deref(args[0]))
             raw_from = self.lib.ty_str(node["args"][0]["t"])
             v0 = deref(args[0])
             dyn = [v0.adt] if isinstance(v0, (Struct, Enum)) and not v0.adt.startswith("#") else []
@@ -1476,6 +1509,8 @@ class PEval:
                 return Iter(list(zip(a0.rest(), other)))
             r = self.call_named(path, fname, [a0.rest()] + args[1:], node, depth)
             return Iter(r) if isinstance(r, list) and fname not in ("collect",) else r
+        if fname == "from" and len(args) == 1 and isinstance(a0, bool) and re.search(r"<impl core::convert::From<bool> for [iu](8|16|32|64|128|size)>", path):
+            return int(a0)
         if fname in ("into", "from") and len(args) == 1:
             return a0
         if fname == "not" and isinstance(a0, bool):
@@ -1512,6 +1547,8 @@ class PEval:
                 return a0.variant == "Err"
             if fname == "ok":
                 return some(inner) if a0.variant == "Ok" else NONE
+            if self.panics and fname in ("unwrap", "expect") and a0.variant == "Err":
+                raise Panic("%s on Err" % fname)
             if fname in ("unwrap", "expect") and a0.variant == "Ok":
                 return inner
             if fname == "map" and len(args) == 2:
@@ -1642,6 +1679,8 @@ class PEval:
                 return a0.variant == "Some"
             if fname == "is_none":
                 return a0.variant == "None"
+            if self.panics and fname in ("unwrap", "expect") and a0.variant == "None":
+                raise Panic("%s on None" % fname)
             if fname in ("unwrap", "expect", "unwrap_unchecked") and a0.variant == "Some":
                 return inner
             if fname == "unwrap_or" and len(args) == 2:
@@ -2181,6 +2220,22 @@ class PEval:
             }
             if fname in table and len(args) == 1:
                 return table[fname]
+            if fname == "to_digit" and len(args) == 2 and isinstance(args[1], int) and 2 <= args[1] <= 36 and "char" in path:
+                ch_ = chr(c).lower() if c < 128 else ""
+                d_ = "0123456789abcdefghijklmnopqrstuvwxyz".find(ch_) if ch_ else -1
+                return some(d_) if 0 <= d_ < args[1] else NONE
+            if fname == "is_digit" and len(args) == 2 and isinstance(args[1], int) and "char" in path:
+                ch_ = chr(c).lower() if c < 128 else ""
+                d_ = "0123456789abcdefghijklmnopqrstuvwxyz".find(ch_) if ch_ else -1
+                return 0 <= d_ < args[1]
+            if fname == "from_u32" and len(args) == 1 and "char" in path:
+                return some(c) if 0 <= c <= 0x10FFFF and not 0xD800 <= c <= 0xDFFF else NONE
+            if fname == "from_digit" and len(args) == 2 and isinstance(args[1], int) and "char" in path:
+                return some(ord("0123456789abcdefghijklmnopqrstuvwxyz"[c])) if 0 <= c < args[1] <= 36 else NONE
+            if fname == "encode_utf8" and "char" in path and 0 <= c <= 0x10FFFF and not 0xD800 <= c <= 0xDFFF:
+                return chr(c)        # the encoded text (the buffer it is written to is not modelled)
+            if fname == "len_utf8" and "char" in path:
+                return len(chr(c).encode("utf-8")) if not 0xD800 <= c <= 0xDFFF else 3
             if c < 128:
                 if fname == "is_digit" and len(args) == 2 and args[1] == 10:
                     return 48 <= c <= 57
